@@ -29,7 +29,13 @@ LEVEL_TEXT = (
     "status (int of the first token of a split / partition, however indexed) and every header pair (`for k, v in H: send_header(k, v)`, `for h in H: send_header(*h)` / `(h[0], h[1])`) reach send_response / send_header unfiltered, and the test that guards the status line / "
     "header block is a latch that the block closes with a constant or a value established as non-None / truthy by a "
     "dominating assert or guard - never by the truthiness of application data; (R19.3) the chunk-size reader turns "
-    "every parse failure and a negative size into OSError (in the reader itself, or around / right after every call of it in readinto) and parses base 16; DechunkedInput.readinto reads a chunk "
+    "every parse failure and a negative size into OSError (in the reader itself, or around / right after every call of it in readinto) and parses base 16; the reader accepts every well-formed "
+    "size line that ends the way the chunk terminator may end - sibling agreement of the two line readers on the framings the property lists: followed statement by "
+    "statement on 8 sample size lines (hex digits in both cases, several digits, leading zeros, zero) for each of CRLF and LF, `readline()` answered by the sample, "
+    "decode / strip / split / partition / slicing / int() executed on it, an int() failure taken to the handler that covers ValueError, methods of the class and "
+    "functions of the module followed two levels, it must return the size the digits denote and never raise (a check of the line end that is stricter than the "
+    "terminator check - endswith CRLF, a two-byte tail, partition at CRLF -, a digit class or a length limit that is too narrow refuses or misreads a sample; a size "
+    "line cut off after a bare CR cannot belong to a complete body and is not judged; a step outside the evaluable subset is an analysis error); DechunkedInput.readinto reads a chunk "
     "header only when the previous chunk and its terminator are consumed (a size kept in a local until it is stored is followed when it is stored on every path and nothing in between touches the state), consumes the terminator exactly when the "
     "residual length reaches zero, raises OSError unless it is a line terminator (decided by following the CFG from the read for sample lines: CRLF and LF continue, "
     "every other sample - the empty line included - ends in raise OSError), sets the end flag only on a freshly "
@@ -2472,6 +2478,40 @@ def _terminator_helper(ctx: Ctx, fi: FuncInfo, sym: "H.LoopSym", cls: ClassInfo)
         ctx.ob("R19.3", "readinto reports malformed framing as OSError", nm in OSERRORS, f"`{norm(r)}` in {fi.name}", fi, r, f"raise {nm}")
 
 
+SIZE_SAMPLES = [b"5", b"a", b"A", b"1f", b"1F", b"0", b"00c", b"10"]
+
+
+def _size_lines_accepted(ctx: Ctx, lr: FuncInfo, under_attr: str) -> None:
+    """sibling agreement between the two line readers of the de-chunker: a chunk-size line that ends in a terminator
+    the terminator check accepts - CRLF and LF, the framings the property lists - must be accepted by the size reader
+    as well, with the size parsed from its hex digits (upper and lower case, leading zeros).  Decided by following the
+    reader statement by statement on sample lines; a check in the reader that refuses a well-formed size line (a
+    stricter idea of the line end than the terminator check has, a digit class that is too narrow, a length limit) makes
+    a sample raise.  What the reader does with malformed lines is the business of the clauses above."""
+    assert lr.cls is not None
+    by_node = {id(fi.node): fi for fi in list(lr.cls.methods.values()) + list(lr.module.functions.values())}
+    by_node[id(lr.node)] = lr
+    runner = H.LineRun(under_attr, {nm: fi.node for nm, fi in lr.cls.methods.items()}, {nm: fi.node for nm, fi in lr.module.functions.items()}, _folder_of(ctx, lr), lambda node: cfg_of(by_node[id(node)]))
+    n = 0
+    for tname, term in (("CRLF", b"\r\n"), ("LF", b"\n")):
+        bad: list[str] = []
+        for h in SIZE_SAMPLES:
+            how, val = runner.run(lr.node, {}, h + term)
+            n += 1
+            want = int(h, 16)
+            if how != "return" or type(val) is not int or val != want:
+                bad.append(f"{h + term!r} -> {'raises ' + str(val) if how == 'raise' else 'returns ' + repr(val)} (expected {want})")
+        try:
+            how_cr, val_cr = runner.run(lr.node, {}, b"5\r")
+            cr = f"{'raises ' + str(val_cr) if how_cr == 'raise' else 'returns ' + repr(val_cr)}"
+        except AnalysisError:
+            cr = "not followed"
+        fact = (f"all {len(SIZE_SAMPLES)} sample size lines ending in {tname} return the size their hex digits denote" if not bad else
+                f"{bad[0]}" + (f" and {len(bad) - 1} more" if len(bad) > 1 else "") + f": a well-formed size line framed with {tname}, which the terminator check accepts after chunk data, is refused or misread") + f" (a line cut off after a bare CR, b'5\\r': {cr} - not judged)"
+        ctx.ob("R19.3", f"a well-formed chunk-size line ending in {tname} is accepted like the chunk terminator {tname} and yields the size written", not bad, fact, lr, lr.node, f"size line ending in {tname} accepted")
+    ctx.floor("R19.3", "sample size lines the chunk-size reader was followed on", n, 2 * len(SIZE_SAMPLES))
+
+
 def _size_reader_rules(ctx: Ctx, lr: FuncInfo, under_attr: str, caller: FuncInfo, sym: "H.LoopSym") -> None:
     cfg = cfg_of(lr)
     rd = ReachingDefs(cfg, lr.params)
@@ -2570,6 +2610,7 @@ def _size_reader_rules(ctx: Ctx, lr: FuncInfo, under_attr: str, caller: FuncInfo
         ctx.ob("R19.3", "the chunk-size reader raises only OSError", nm in OSERRORS, f"`{norm(r)}`", lr, r, f"size reader raise {nm}")
     lines = [c for c in astq.calls(lr.node) if isinstance(c.func, ast.Attribute) and is_self_attr(c.func.value, under_attr)]
     ctx.ob("R19.3", "the size line is one readline() of the underlying stream", len(lines) == 1 and lines[0].func.attr == "readline" and not lines[0].args, f"{[norm(c) for c in lines]}", lr, lines[0] if lines else lr.node, "size line read")  # type: ignore[attr-defined]
+    _size_lines_accepted(ctx, lr, under_attr)
     # negative sizes
     rets = astq.returns_of(lr.node)
     ctx.floor("R19.3", "returns of the chunk-size reader", len(rets), 1)
